@@ -341,3 +341,53 @@ def loop_exhaustive(body, loop):
     continue and panics do not)"""
     sb, it, none_e, some_e, cs = loop
     return bool(none_e) and body.must_pass(some_e, body.return_blocks(), none_e)
+
+
+# ---------------------------------------------------------------------------- skip conditions
+def skip_conditions(body, bb):
+    """conditions (other than loop-iterator Some edges, matches on parameters' enum discriminants and
+    `if CHECKS`) that dominate block bb: [(edge, kind, text, role)]"""
+    out = []
+    for e, cond in conditions_at(body, bb):
+        r = cond[1] if len(cond) > 1 else None
+        if cond[0] in ("true", "false", "unknown") and isinstance(r, tuple):
+            sr = strip_role(r)
+            if r[0] == "const":
+                continue
+            if r[0] == "discr":
+                continue
+            if r[0] == "phi" and all(isinstance(x, tuple) and x[0] == "const" for x in r[1]):
+                continue   # drop flags
+        txt = " ".join(role_str(x) for x in cond[1:])
+        out.append((e, cond[0], txt, cond))
+    return out
+
+
+def check_only_allowed_skips(ctx, body, bb, allowed, key, what):
+    """allowed: list of (kind, predicate(text, cond)) ; reports every dominating condition that matches none"""
+    ok = True
+    seen = []
+    for e, kind, txt, cond in skip_conditions(body, bb):
+        if any(k == kind and pred(txt, cond) for k, pred in allowed):
+            seen.append((kind, txt[:80]))
+            continue
+        ok = False
+        ctx.bad("extra-skip:%s:%s %s" % (key, kind, txt[:60]),
+                "%s is additionally guarded by [%s %s] — instances can be skipped for a reason other than the legitimate ones" % (what, kind, txt[:200]),
+                where_of(body, e[1]))
+    if ok:
+        ctx.ok("only-allowed-skips:" + key, "%s is guarded only by %s" % (what, seen), where_of(body, bb))
+    return ok
+
+
+def role_calls_deep(crate, role, name):
+    """the role mentions a call `name`, directly or inside a closure that occurs in the role"""
+    for x in role_walk(role):
+        if isinstance(x, tuple) and x[0] == "call" and x[1] == name:
+            return True
+        if isinstance(x, tuple) and x[0] == "agg" and isinstance(x[1], str) and x[1] in crate.bodies:
+            cb = crate.bodies[x[1]]
+            for sub in cb.all_bodies():
+                if any(c.callee and c.callee.name == name for c in sub.calls):
+                    return True
+    return False
